@@ -570,6 +570,8 @@ def jobs_for(tier):
             jobs.append(("sread", n, op, tier))
         for op in MUTATORS:
             jobs.append(("swrite", n, op, tier))
+    for n in range(1, nmax + 1):
+        jobs.append(("history", n, None, tier))
     for n in range(1, rmax + 1):
         jobs.append(("real", n, None, tier))
     jobs.append(("surface", 0, None, tier))
@@ -621,6 +623,41 @@ def _worker(job, chk):
                 problems, key = run_real(states, wop, args, False)
                 _record(chk, problems, key, {"mode": mode, "states": list(states), "op": wop, "windex": wi,
                                              "read": False})
+    elif mode == "history":
+        # one long-lived FallbackClient: every read (under every hit/miss assignment) followed by every
+        # mutator; the write must still reach cache 0 only, whatever the earlier read found and where
+        WARGS = {"set": ("a", b"v"), "add": ("a", b"v"), "replace": ("a", b"v"), "append": ("a", b"v"),
+                 "prepend": ("a", b"v"), "cas": ("a", b"v", b"100"), "delete": ("a",), "incr": ("a", 1),
+                 "decr": ("a", 1), "touch": ("a",), "flush_all": ()}
+        for rop in READS:
+            single = rop in ("get", "gets")
+            kinds = ["hit", "miss"] if single else ["hit-one", "miss"]
+            for assign in itertools.product(kinds, repeat=n):
+                for wop in MUTATORS:
+                    log = []
+                    caches = [Scripted(i, {r: read_answer(r, "miss" if assign[i] == "miss" else
+                                                         ("hit" if r in ("get", "gets") else "hit-one"), i, ["a", "b"])
+                                           for r in READS}, log) for i in range(n)]
+                    fc = FallbackClient(caches)
+                    getattr(fc, rop)("a" if single else ["a", "b"])
+                    mark = len(log)
+                    try:
+                        getattr(fc, wop)(*WARGS[wop])
+                        problems = []
+                    except Exception as e:  # noqa
+                        problems = [(f"history|{wop}|raises-after-{rop}|{type(e).__name__}",
+                                     f"{wop} after {rop} raised {type(e).__name__}: {e}")]
+                    after = log[mark:]
+                    touched = sorted({e[0] for e in after})
+                    if any(i != 0 for i in touched):
+                        problems.append((f"history|{wop}|fallback-cache-touched-after-{rop}",
+                                         f"FallbackClient({n} caches answering {list(assign)}): {rop} then {wop}{WARGS[wop]!r} "
+                                         f"reached caches {touched}; writes must go to cache 0 only"))
+                    elif not any(e[0] == 0 and e[1] == wop for e in after):
+                        problems.append((f"history|{wop}|primary-not-written-after-{rop}",
+                                         f"FallbackClient({n} caches answering {list(assign)}): {rop} then {wop}: cache 0 saw {after}"))
+                    _record(chk, problems, ("history", n, rop, wop, assign), {"mode": mode, "n": n, "rop": rop, "wop": wop,
+                                                                             "kinds": list(assign)})
     elif mode == "surface":
         public = sorted(x for x in dir(FallbackClient) if not x.startswith("_") and callable(getattr(FallbackClient, x)))
         known = set(READS) | set(MUTATORS) | set(OTHER)
@@ -666,6 +703,11 @@ def replay(detail):
         else:
             wop, args = REAL_WRITES[detail["windex"]]
             problems, _ = run_real(tuple(detail["states"]), wop, args, False)
+    elif mode == "history":
+        tmp = runner.Check(PROPERTY, LEVEL, "quick", 0)
+        _worker(("history", detail["n"], None, "quick"), tmp)
+        problems = [(s, v["what"]) for s, v in tmp.violations.items()
+                    if f"|{detail['wop']}|" in s and s.endswith(detail["rop"])]
     else:
         problems = [(None, f"FallbackClient has no method {n}") for n in list(READS) + list(MUTATORS)
                     if not hasattr(FallbackClient, n)]
